@@ -63,7 +63,7 @@ def run(ctx):
     for n, c in enumerate(sorted(data["cases"], key=lambda c: (c["i"], sorted(c["o"].items(), key=str).__repr__()))):
         text = dec(c["u"]).lower()
         platformy = "facebook" in text or "youtube" in text
-        cases.append({"u": c["u"], "o": c["o"], "infer": n % 2 == 0, "platform": (n % 4 >= 2) and not platformy})
+        cases.append({"u": c["u"], "o": c["o"], "infer": n % 2 == 0, "platform": ((n // 2 + c["i"]) % 2 == 0) and not platformy})
     if ctx.quick:
         # quick: every option vector on a third of the table (rotating by seed), single flips from the default on all of it
         keep = set(i for i in range(NURLS) if i % 3 == ctx.seed % 3)
